@@ -1,4 +1,133 @@
-import Cpl.Model.Measures
+import Cpl.Lemmas.Apen
+
+/-!
+# C19 — Approximate entropy matches Pincus' definition
+
+`apen(seq, m, r)` equals `|phi(m+1) - phi(m)|` where `phi(m)` is the mean log fraction of length-`m`
+windows within Chebyshev distance `r` of each window (self-matches included); it is non-negative and
+zero for constant sequences.
+
+Property theorems only; proofs of the helper facts are in `Cpl.Lemmas.Apen`. The model (`windows`,
+`maxDist`, `matchCount`, `phi`, `apen` in `Cpl.Model.Measures`) is generic over a record of arithmetic
+operations; here it is instantiated with the real numbers (`Cpl.Bien.realNum`: exact arithmetic,
+`Real.log`), the driver instantiates the very same definitions with `Float`.
+
+Outside this file (Python-level, checked by the harness): the dispatch on the input form (digit string,
+list, array) and the `TypeError` for an unsupported sequence type; and the distance between the real
+value and the floating-point value.
+
+The claim's quantifier is: integer sequences of length `≥ m + 1`, `m ≥ 1`, `r ≥ 0`. Several statements
+below hold more generally and are stated without the superfluous hypotheses; where a hypothesis is what
+makes the statement meaningful (all logarithms are of positive numbers) it is a separate theorem
+(`fraction_mem`).
+-/
+
 namespace Cpl.C19
-theorem placeholder : True := trivial
+open Cpl Cpl.Bien
+
+/-! ## 1. Exact combinatorial part -/
+
+/-- There are `N + 1 - m` windows; window `i` is `u[i .. i+m-1]`: it has length `m` and its `j`-th entry is
+    `u[i + j]`. -/
+theorem windows_spec (u : List Int) (m : Nat) :
+    (windows u m).length = u.length + 1 - m ∧
+    ∀ i, i < u.length + 1 - m →
+      (windows u m)[i]? = some ((u.drop i).take m) ∧
+      ((u.drop i).take m).length = m ∧
+      ∀ j, j < m → ((u.drop i).take m)[j]? = u[i + j]? :=
+  ⟨Apen.windows_length u m, fun i hi =>
+    ⟨Apen.windows_getElem? u m i hi, Apen.window_length u m i hi, fun j hj => Apen.window_getElem? u m i j hj⟩⟩
+
+/-- `maxDist` is the Chebyshev distance: it is at most `r` exactly when `r ≥ 0` and every aligned pair of
+    entries differs by at most `r`. -/
+theorem maxDist_le_iff (a b : List Int) (r : Int) :
+    maxDist a b ≤ r ↔ 0 ≤ r ∧ ∀ p ∈ a.zip b, |p.1 - p.2| ≤ r := Apen.maxDist_le_iff a b r
+
+/-- A window is at distance 0 from itself. -/
+theorem maxDist_self (a : List Int) : maxDist a a = 0 := Apen.maxDist_self a
+
+/-- Distances are non-negative. -/
+theorem maxDist_nonneg (a b : List Int) : 0 ≤ maxDist a b := Apen.maxDist_nonneg a b
+
+/-- The distance is symmetric. -/
+theorem maxDist_comm (a b : List Int) : maxDist a b = maxDist b a := Apen.maxDist_comm a b
+
+/-- Self-matches are included: for `r ≥ 0` every window matches at least itself, so every count is `≥ 1`
+    and every logarithm in `phi` is the logarithm of a positive number. -/
+theorem self_match {ws : List (List Int)} {r : Int} {xi : List Int} (hx : xi ∈ ws) (hr : 0 ≤ r) :
+    1 ≤ matchCount ws r xi := Apen.self_match hx hr
+
+/-- A count never exceeds the number of windows. -/
+theorem matchCount_le (ws : List (List Int)) (r : Int) (xi : List Int) :
+    matchCount ws r xi ≤ ws.length := Apen.matchCount_le ws r xi
+
+/-- For a window of the sequence and `r ≥ 0` the fraction of windows within tolerance lies in `(0, 1]`. -/
+theorem fraction_mem {u : List Int} {m : Nat} {r : Int} {xi : List Int} (hx : xi ∈ windows u m) (hr : 0 ≤ r) :
+    0 < (matchCount (windows u m) r xi : ℝ) / ((u.length + 1 - m : ℕ) : ℝ) ∧
+    (matchCount (windows u m) r xi : ℝ) / ((u.length + 1 - m : ℕ) : ℝ) ≤ 1 := Apen.fraction_mem hx hr
+
+/-! ## 2. Pincus' definition
+
+`apen realNum u m r = |phi realNum u (m+1) r - phi realNum u m r|` holds by definition of the model
+(`apen_def` below is `rfl`); the content is that `phi` is the mean log fraction. -/
+
+/-- `apen` is `|phi(m+1) - phi(m)|` (definitional). -/
+theorem apen_def (u : List Int) (m : Nat) (r : Int) :
+    apen realNum u m r = |phi realNum u (m + 1) r - phi realNum u m r| := rfl
+
+/-- `phi(m)` is the mean, over the `W = N + 1 - m` windows `xi` of length `m`, of
+    `log (number of windows within distance r of xi / W)`. -/
+theorem phi_def (u : List Int) (m : Nat) (r : Int) :
+    phi realNum u m r =
+      ((windows u m).map fun xi =>
+        Real.log ((matchCount (windows u m) r xi : ℝ) / ((u.length + 1 - m : ℕ) : ℝ))).sum
+        / ((u.length + 1 - m : ℕ) : ℝ) := Apen.phi_def u m r
+
+/-! ## 3–5. Sign and the constant case -/
+
+/-- Approximate entropy is non-negative. -/
+theorem apen_nonneg (u : List Int) (m : Nat) (r : Int) : 0 ≤ apen realNum u m r := abs_nonneg _
+
+/-- `phi` is a mean of logarithms of fractions in `(0, 1]`, hence `≤ 0`. (True for every `u`, `m`, `r`; under
+    the claim's hypotheses `r ≥ 0`, `m ≤ N` the fractions are genuinely positive, see `fraction_mem`.) -/
+theorem phi_nonpos (u : List Int) (m : Nat) (r : Int) : phi realNum u m r ≤ 0 := Apen.phi_nonpos u m r
+
+/-- On a constant sequence all windows coincide, every fraction is `1` and `phi` is `0`. -/
+theorem phi_const {u : List Int} {c : Int} (hu : ∀ x ∈ u, x = c) (m : Nat) {r : Int} (hr : 0 ≤ r) :
+    phi realNum u m r = 0 := Apen.phi_const hu m hr
+
+/-- The approximate entropy of a constant sequence is zero. -/
+theorem apen_const {u : List Int} {c : Int} {m : Nat} {r : Int}
+    (hu : ∀ x ∈ u, x = c) (_ : m + 1 ≤ u.length) (hr : 0 ≤ r) : apen realNum u m r = 0 := by
+  rw [apen_def, phi_const hu (m + 1) hr, phi_const hu m hr, sub_zero, abs_zero]
+
+/-! ## 6. Concrete instances (non-vacuity) -/
+
+example : windows [1, 2, 1, 2, 3] 2 = [[1, 2], [2, 1], [1, 2], [2, 3]] := by decide
+example : maxDist [1, 2] [2, 4] = 2 := by decide
+example : matchCount (windows [1, 2, 1, 2, 3] 2) 0 [1, 2] = 2 := by decide
+example : matchCount (windows [1, 2, 1, 2, 3] 2) 1 [1, 2] = 4 := by decide
+example : matchCount (windows [1, 2, 1, 2, 3] 3) 1 [2, 1, 2] = 3 := by decide
+
+/-- A non-zero value: for `01`, `m = 1`, `r = 0` the two windows of length 1 match only themselves
+    (`phi(1) = log (1/2)`) and the single window of length 2 matches itself (`phi(2) = 0`). -/
+example : apen realNum [0, 1] 1 0 = Real.log 2 := by
+  have h1 : phi realNum [0, 1] 2 0 = 0 := by
+    rw [phi_def]
+    have : windows [0, 1] 2 = [[0, 1]] := by decide
+    rw [this]
+    have : matchCount [[0, 1]] 0 [0, 1] = 1 := by decide
+    simp [this]
+  have h2 : phi realNum [0, 1] 1 0 = Real.log (1 / 2) := by
+    rw [phi_def]
+    have : windows [0, 1] 1 = [[0], [1]] := by decide
+    rw [this]
+    have e1 : matchCount [[0], [1]] 0 [0] = 1 := by decide
+    have e2 : matchCount [[0], [1]] 0 [1] = 1 := by decide
+    simp [e1, e2]
+  rw [apen_def, h1, h2, one_div, Real.log_inv, zero_sub, neg_neg, abs_of_nonneg (Real.log_nonneg (by norm_num))]
+
+example : apen realNum [7, 7, 7, 7, 7] 2 1 = 0 :=
+  apen_const (c := 7) (by decide) (by decide) (by decide)
+
 end Cpl.C19
